@@ -10,6 +10,7 @@ import json, os, re
 from harness import common as C
 from harness.common import cbytes, clist, cnat
 from harness.props import C09_util as U
+from harness.props import pyfun_util
 
 PID = "C09"
 K_TAIL = "long-write-keeps-old-tail"
@@ -384,6 +385,11 @@ def run(ctx):
                        "procedure starts with the procedure lock free and nothing in the GATT message queue but Error Responses sent for refused Write Commands (invariant of the modelled procedures, proved: C09_client_usable_after)",
                        "target handle holds a characteristic value whose declaration is at handle-1 (what Profile builds)"]
     proofs_ok, detail = ctx.check_proofs(lib_targets=["theories/Lib/Bytes.vo"])
+    # the chunk arithmetic of write_long_nolock regenerated from the source and proved equal to the model
+    # (harness/translators/pyfun.py, theories/C09/{Gen,GenEq,PropertyGen}.v, design/PYTRANS.md)
+    gen = pyfun_util.check_generated(ctx, PID)
+    if not gen["ok"]:
+        proofs_ok, detail = False, (detail if not proofs_ok else str(gen["what"])) + gen["detail"]
     ctx.log("proofs:", proofs_ok, detail.splitlines()[0][:300])
 
     # ---- generation -----------------------------------------------------------
@@ -461,7 +467,7 @@ def run(ctx):
         {"tag": cases[n_corpus + 20]["tag"] if len(cases) > n_corpus + 20 else cases[0]["tag"],
          "ops": [o if len(json.dumps(o)) < 120 else [o[0], o[1], "…%d bytes" % (len(o[2]) // 2)] for o in cases[min(n_corpus + 20, len(cases) - 1)]["ops"][:6]]},
     ]
-    ctx.cov["source_ties"] = [C.source_tie("whad/ble/stack/gatt/__init__.py", 43, 70),
+    ctx.cov["source_ties"] = ctx.cov.get("source_ties", []) + [C.source_tie("whad/ble/stack/gatt/__init__.py", 43, 70),
                               C.source_tie("whad/ble/stack/gatt/__init__.py", 184, 210),
                               C.source_tie("whad/ble/stack/gatt/__init__.py", 923, 1087),
                               C.source_tie("whad/ble/stack/gatt/__init__.py", 1475, 1747),
